@@ -64,7 +64,9 @@ theorem init_gives_decoder (c : Codec) (b : Block) (o : Oti) (k bs sbn : Nat) (b
     · simp at h
   · simp at h
   · split at h
-    · simp at h; rw [← h]; simp
+    · split at h
+      · simp at h
+      · simp at h; rw [← h]; simp
     · simp at h
   · split at h
     · simp at h
@@ -512,7 +514,8 @@ example : ∃ st', run { codec := ⟨fun _ _ => false, fun _ _ _ => none, fun _ 
   · exact ⟨by decide, by intro o ho; cases ho; decide⟩
   · intro o l h; cases h
 
-/-- the parameters the `orecv` driver EXECUTES (table decompressor `idealDz`, inner fuel `idealFuel` = path's `idealMu` + 1) satisfy
+/-- the parameters the `orecv` driver EXECUTES (table decompressor `tableDz`: buffered reader, nothing consumed after the end of the stream; inner fuel
+    `tableFuel` = the measure of its contract `tableContract` + 1) satisfy
     `DzOK` literally - so `run_total`, `Feasible`, ... apply to exactly the model instance the correspondence validates -/
 theorem driver_params_meet_DzOK (d : Flute.Drv.Orecv.DState) (toi base : Nat) :
     Nonempty (DzOK (d.params.forObj toi base)) := ⟨Flute.Drv.Orecv.drv_params_dzOK d toi base⟩
